@@ -21,6 +21,7 @@ import scipy.linalg
 
 from EasyFEA import Models, Simulations
 
+from . import _suite
 from ..core import Ctx, quiet, relerr
 from ..gen import materials as gmat
 from ..gen import meshes as gm
@@ -92,6 +93,9 @@ def cases(tier: str, seed: int) -> list[dict]:
         tag = f"{c['split']}-{c['mat']}-{c['dim']}D{'ps' if c['ps'] else ''}" if c["fam"] == "states" else f"{c['solver']}-{c['regu']}-{c['split']}-{c['et']}-{c['program']}"
         c["id"] = f"C17-{i:05d}-{c['fam']}-{tag}"
         c["index"] = i
+    for c in _suite.suite_cases(PROP, tier):
+        c["index"] = len(out)
+        out.append(c)
     return out
 
 
@@ -450,6 +454,8 @@ def run_history(case, ctx, rng):
 
 
 def run_case(case: dict, ctx: Ctx) -> None:
+    if case.get("fam") == "suite":
+        return _suite.run_suite(case, ctx, PROP)
     rng = np.random.default_rng([case["seed"], NUM, case["index"]])
     if case["fam"] == "states":
         run_states(case, ctx, rng)
